@@ -100,6 +100,57 @@ def r1_numbering(ctx):
            'the i-th line gets number start + i' if ok else 'the numbering does not start at the given start', anchor=ALN)
 
 
+def _derives_from_want(rd, recv, node, e, bad, src, depth=0):
+    """e flows from self.want without any rewriting step"""
+    if depth > 6:
+        bad.append('derivation too deep')
+        return
+    if isinstance(e, ast.Attribute) and is_name(e.value, recv) and e.attr == 'want':
+        return
+    if isinstance(e, ast.Constant) and e.value == '':
+        return
+    if isinstance(e, ast.IfExp):
+        _derives_from_want(rd, recv, node, e.body, bad, src, depth + 1)
+        _derives_from_want(rd, recv, node, e.orelse, bad, src, depth + 1)
+        return
+    if isinstance(e, ast.BoolOp) and isinstance(e.op, ast.Or):
+        for v in e.values:
+            _derives_from_want(rd, recv, node, v, bad, src, depth + 1)
+        return
+    if isinstance(e, ast.Name):
+        ds = rd.at(node, e.id)
+        if not ds:
+            bad.append('%s has no definition' % e.id)
+        for d in ds:
+            if d.kind == 'assign' and isinstance(d.value, ast.AST):
+                _derives_from_want(rd, recv, d.node, d.value, bad, src, depth + 1)
+            else:
+                bad.append('%s defined by %s' % (e.id, d.kind))
+        return
+    bad.append(src(e, 60))
+
+
+def _want_comprehensions(ctx, f, g, rd, recv):
+    """[(node, comprehension)] for statements that build the displayed want rows by a comprehension over <text>.splitlines(), where the text mentions self.want"""
+    out = []
+    for n in g.nodes:
+        if n.kind != 'stmt' or n.dup or not isinstance(n.ast, (ast.Assign, ast.AugAssign)):
+            continue
+        v = n.ast.value
+        if isinstance(v, ast.ListComp) and len(v.generators) == 1:
+            it = v.generators[0].iter
+            if isinstance(it, ast.Call) and isinstance(it.func, ast.Attribute) and it.func.attr == 'splitlines':
+                subj = it.func.value
+                mentions = any(isinstance(x, ast.Attribute) and x.attr == 'want' and is_name(x.value, recv) for x in ast.walk(subj))
+                if not mentions and isinstance(subj, ast.Name):
+                    bad = []
+                    _derives_from_want(rd, recv, n, subj, bad, ctx.src)
+                    mentions = not bad
+                if mentions:
+                    out.append((n, v))
+    return out
+
+
 def r2_lines_once(ctx):
     rep = ctx.rep
     f = ctx.func(FP)
@@ -127,7 +178,24 @@ def r2_lines_once(ctx):
                    'without prompts the executable source is shown' if ok else 'the prompt-free source is not the executable source of the part', anchor=FP)
     # want lines appended once per line, only under `want`
     apps = [n for n in g.nodes if n.kind == 'stmt' and not n.dup and any(isinstance(c.func, ast.Attribute) and c.func.attr == 'append' and is_name(c.func.value, 'want_lines') for c in node_calls(n))]
-    rep.floor('C18.R2', 'want line appends', len(apps), 1)
+    comps = _want_comprehensions(ctx, f, g, rd, recv)
+    rep.floor('C18.R2', 'want line appends', len(apps) + len(comps), 1)
+    for (n, comp) in comps:
+        facts = graph.guard_facts(dom, n)
+        names = set()
+        for fa in facts:
+            if isinstance(fa.expr, ast.Name) and fa.polarity is True:
+                bad_ = []
+                if fa.expr.id != 'want':
+                    _derives_from_want(rd, recv, fa.origin.attrs['test'] if fa.origin is not None else n, fa.expr, bad_, ctx.src)
+                    if not bad_:
+                        continue        # "the want text is not empty": an empty text has no lines to show anyway
+                names.add(fa.expr.id)
+        ok = names <= {'want'} and 'want' in names
+        rep.ob('C18.R2', ctx.loc(f, n.ast), ctx.src(n.ast), ok,
+               'want lines are emitted iff the `want` option is on' if ok else 'want lines are emitted under %s' % sorted(names), anchor=FP)
+        ok = not comp.generators[0].ifs
+        rep.ob('C18.R2', ctx.loc(f, comp), 'one row per want line', ok, 'the comprehension keeps every line of the want' if ok else 'want lines are filtered before they are displayed', anchor=FP)
     for a in apps:
         loops = [fr for fr in a.frames if fr.kind == 'loop']
         need(loops, 'C18.R2: want lines are not appended in a loop over the want text')
@@ -176,7 +244,21 @@ def r2b_want_text_unmodified(ctx):
     recv = f.node.args.args[0].arg
     heads = [n for n in g.nodes if n.kind == 'for' and not n.dup and isinstance(n.ast.iter, ast.Call) and isinstance(n.ast.iter.func, ast.Attribute) and n.ast.iter.func.attr == 'splitlines'
              and any(isinstance(c.func, ast.Attribute) and c.func.attr == 'append' and is_name(c.func.value, 'want_lines') for s_ in n.ast.body for c in ast.walk(s_) if isinstance(c, ast.Call))]
-    rep.floor('C18.R2b', 'loops over the want lines', len(heads), 1)
+    comps = _want_comprehensions(ctx, f, g, rd, recv)
+    rep.floor('C18.R2b', 'loops over the want lines', len(heads) + len(comps), 1)
+    for (n, comp) in comps:
+        bad = []
+        _derives_from_want(rd, recv, n, comp.generators[0].iter.func.value, bad, ctx.src)
+        rep.ob('C18.R2b', ctx.loc(f, comp), 'want lines <- %s' % ctx.src(comp.generators[0].iter), not bad,
+               'the lines are those of self.want, unmodified' if not bad else
+               'the want text is rewritten before it is displayed (%s): a displayed want line differs from the want line of the doctest' % '; '.join(bad), anchor=FP)
+        lv = comp.generators[0].target.id if isinstance(comp.generators[0].target, ast.Name) else None
+        a = comp.elt
+        uses = lambda e: any(is_name(x, lv) for x in ast.walk(e))
+        ok = is_name(a, lv) or (isinstance(a, ast.BinOp) and isinstance(a.op, ast.Add) and is_name(a.right, lv) and not uses(a.left)) or \
+            (isinstance(a, ast.Call) and isinstance(a.func, ast.Attribute) and a.func.attr == 'format' and not uses(a.func.value) and
+             len(a.keywords) + len(a.args) == 1 and is_name((a.args + [k.value for k in a.keywords])[0], lv))
+        rep.ob('C18.R2b', ctx.loc(f, a), ctx.src(a), ok, 'the line is emitted as it is (after the alignment blanks)' if ok else 'the emitted want row is not the alignment blanks followed by the line itself', anchor=FP)
     for h in heads:
         init = [n for n in g.nodes if n.kind == 'for_init' and n.stmt is h.ast][0]
         subj = h.ast.iter.func.value
